@@ -926,7 +926,7 @@ pub mod fasta {
             [C20|fasta.SeqLines.next.exact_len] final(self).swf(),
 //@closure 0 params="vx_p: (&'a usize, &'a usize)" bind=vx_p expect_names=start,next_start ret="(q: &'a [u8])"
             requires *vx_p.0 + 1 <= *vx_p.1 <= self.data@.len()
-            [C12,C13|fasta.SeqLines.next.item_is_trimmed_line] ensures q@ == trim(self.data@.subrange(*vx_p.0 + 1, *vx_p.1 as int))
+            [C12,C13,C20|fasta.SeqLines.next.item_is_trimmed_line] ensures q@ == trim(self.data@.subrange(*vx_p.0 + 1, *vx_p.1 as int))
 //@tail vx_r
         proof {
             assert(old(self).rem().len() > 0 ==> self.views() =~= old(self).views().drop_first());
@@ -954,7 +954,7 @@ pub mod fasta {
         }
 //@closure 0 params="vx_p: (&'a usize, &'a usize)" bind=vx_p expect_names=start,next_start ret="(q: &'a [u8])"
             requires *vx_p.0 + 1 <= *vx_p.1 <= self.data@.len()
-            [C12,C13|fasta.SeqLines.next_back.item_is_trimmed_line] ensures q@ == trim(self.data@.subrange(*vx_p.0 + 1, *vx_p.1 as int))
+            [C12,C13,C20|fasta.SeqLines.next_back.item_is_trimmed_line] ensures q@ == trim(self.data@.subrange(*vx_p.0 + 1, *vx_p.1 as int))
 //@tail vx_r
         proof {
             assert(old(self).rem().len() > 0 ==> self.views() =~= old(self).views().drop_last());
